@@ -81,7 +81,7 @@ def main() -> int:
         ok = ok and hit
         shutil.rmtree(d, ignore_errors=True)
     # ---- the other self-contained models: must hold as configured
-    for mod in ("MC_Pool", "Deps", "Faults", "Variants", "Gen_Sites", "LinePipe", "XmlDocs", "MC_ExprRewrite", "WithScope", "SqlParam", "WalrusIf"):
+    for mod in ("MC_Pool", "Deps", "Faults", "Variants", "Gen_Sites", "LinePipe", "XmlDocs", "MC_ExprRewrite", "WithScope", "SqlParam", "WalrusIf", "Prefilter"):
         r = tlc.run_tlc(spec, mod, f"{mod}.cfg", timeout=900)
         print(f"tlc  {'ok  ' if not r.violated else 'FAIL'} {mod}: {r.distinct} states, {r.wall_s:.1f}s {[v[1] for v in r.violated][:2]}")
         ok = ok and not r.violated
@@ -112,6 +112,15 @@ def main() -> int:
             print(f"  SqlParam rule variant {variant}: {inv} {'refuted' if hit else 'NOT REFUTED'}")
             ok = ok and hit
         shutil.rmtree(d, ignore_errors=True)
+    # ---- Prefilter.tla without its proviso: the one-scan design must be refuted (a fix that creates a later codemod's trigger)
+    d = scratch("prebug")
+    shutil.copy(spec / "Prefilter.tla", d / "Prefilter.tla")
+    (d / "Prefilter.cfg").write_text((spec / "Prefilter.cfg").read_text().replace("Assume = TRUE", "Assume = FALSE"))
+    r = tlc.run_tlc(d, "Prefilter", "Prefilter.cfg", timeout=300, cont=True)
+    hit = any(v[1] == "C09_BatchEqualsChain" for v in r.violated)
+    print(f"  Prefilter without NoEnabling: {'refuted' if hit else 'NOT REFUTED'}")
+    ok = ok and hit
+    shutil.rmtree(d, ignore_errors=True)
     # ---- non-vacuity of WalrusIf.tla: the rule of the pinned commit must be refuted
     d = scratch("walrusbug")
     shutil.copy(spec / "WalrusIf.tla", d / "WalrusIf.tla")
